@@ -190,9 +190,18 @@ def check(tier: str) -> Report:
             members = [(attr_value(cat)[0], attr_value(cat)[1])]
         else:
             members = [(v, expected_seconds(cat, v)) for v, _ in value_members(cat, rng, extra)]
-        for value, exact in members:
-            exc = type("Http429", (Exception,), {})("rate limited")
-            exc.status = 429
+        for mi_, (value, exact) in enumerate(members):
+            # the ways an error can be a rate-limit error: numeric status under any of the three
+            # attribute names (int or IntEnum), or the marker exception type without any status
+            how = (ci_ + mi_) % 5
+            if how == 4:
+                from redress.errors import RateLimitError
+                exc = type("Throttled", (RateLimitError,), {})("rate limited")
+            else:
+                import http as _http
+                exc = type("Http429", (Exception,), {})("rate limited")
+                setattr(exc, ["status", "status_code", "code", "status"][how],
+                        _http.HTTPStatus(429) if how == 3 else 429)
             if src == "attr":
                 exc.retry_after = value
             elif src == "headers":
